@@ -100,13 +100,20 @@ def observe(base, pay, wcfg, level, long_lived=()):
 def run_history(workdir, cfg, ops, salt=0, level=9, via="ctor"):
     from neuroglancer_scripts import file_accessor as fa
     base = tempfile.mkdtemp(prefix="fs_", dir=workdir)
+    # dataset directories whose names hold characters that are special in URLs: '+' is a legal
+    # literal in a URL path, a space and '%' must be percent-encoded there
+    special = ("", "T1+T2_fused", "a b%41+c")[salt % 3]
+    if special:
+        base = os.path.join(base, special)
+        os.makedirs(base)
     pay = payloads(salt)
     acc = fa.FileAccessor(base, flat=cfg["flat"], gzip=cfg["gzip"], compresslevel=level)
     if via != "ctor":
         # the accessor the command-line tools get: URL spelling + options dictionary
         from neuroglancer_scripts import accessor as acc_mod
-        url = {"path": base, "file": "file://" + base, "precomputed": "precomputed://" + base,
-               "precomputed-file": "precomputed://file://" + base}[via]
+        enc = base.replace("%", "%25").replace(" ", "%20")
+        url = {"path": base, "file": "file://" + enc, "precomputed": "precomputed://" + base,
+               "precomputed-file": "precomputed://file://" + enc}[via]
         opts = {"flat": cfg["flat"], "gzip": cfg["gzip"], "compresslevel": level}
         if via == "path" and not cfg["flat"] and cfg["gzip"] and level == 9:
             opts = {}                      # the documented defaults: deep layout, gzip, level 9
